@@ -719,7 +719,7 @@ fn same(a: &Viol, b: &Viol) -> bool {
 fn minimise(rep: &Replay, secs: u64) -> Replay {
     let start = Instant::now();
     let mut best = Replay { property: rep.property.clone(), engine: rep.engine.clone(), seed: rep.seed, run: rep.run, plan: rep.plan.clone(), expect: rep.expect.clone() };
-    let mut progress = true;
+    let mut progress = std::env::var_os("VERIF_NO_MIN").is_none();
     while progress && start.elapsed().as_secs() < secs {
         progress = false;
         let mut cands = vec![];
